@@ -189,6 +189,23 @@ def param_path(t):
     return None
 
 
+def value_path(t):
+    """Like param_path, but for the *value*: (i, path) only when t still is the unmodified content of parameter i's
+    field (copies, clones and reads through references are fine; a `post` version left by a mutating call is not)."""
+    path = []
+    for _ in range(40):
+        if t[0] == 'at':
+            t = t[2]
+        elif t[0] == 'field':
+            path.append(t[2])
+            t = t[1]
+        elif t[0] == 'param':
+            return t[1], tuple(reversed(path))
+        else:
+            return None
+    return None
+
+
 def rooted_at_param(t, i):
     pp = param_path(t)
     return pp is not None and pp[0] == i
